@@ -70,20 +70,14 @@ impl Model {
         stack.push(c0);
         trailing.push(t0);
         let mut follows = 0u64;
-        // "must be directory" requirement accumulated from trailing slashes of finished strings
-        let mut need_dir = false;
         loop {
             // pop exhausted strings
             while let Some(top) = stack.last() {
                 if top.is_empty() {
                     stack.pop();
                     let tr = trailing.pop().unwrap();
-                    // a trailing slash on a nested link body only matters through the ENOTDIR check below,
-                    // which the kernel applies when it continues walking; on the outermost string it demands a directory.
-                    if tr { need_dir = true; }
-                    if !stack.is_empty() && tr {
-                        // more components follow anyway, which already demand a directory
-                    }
+                    // a string that ended in '/' (the path itself or a link body) demands that what it named is a directory
+                    if tr { match self.nodes.get(&cur) { Some(N::Dir) => {}, _ => return Err(ENOTDIR) } }
                 } else { break; }
             }
             if stack.is_empty() { break; }
@@ -124,9 +118,6 @@ impl Model {
                     cur = next;
                 }
             }
-        }
-        if need_dir {
-            match self.nodes.get(&cur) { Some(N::Dir) => {}, Some(N::Link(_)) => return Err(ENOTDIR), _ => return Err(ENOTDIR) }
         }
         Ok(cur)
     }
